@@ -148,6 +148,15 @@ pub fn gen_num(t: &mut Tape, nonzero: bool, positive: bool) -> Num {
 }
 
 fn gen_name(t: &mut Tape, prefix: &str, i: usize) -> String {
+    // names are arbitrary tokens: some look like numbers (columns "1", "2", "inf"; rows "0.5", "1.5", "1e3")
+    if t.p(28) {
+        return match (prefix, i, t.coin()) {
+            ("x", 0, true) => "inf".to_string(),
+            ("x", _, _) => format!("{}", i + 1),
+            (_, 0, true) => "1e3".to_string(),
+            _ => format!("{i}.5"),
+        };
+    }
     match t.choice(5) {
         0 => format!("{prefix}{i}"),
         1 => format!("{prefix}_{i}"),
@@ -277,6 +286,12 @@ pub fn gen_lp(t: &mut Tape, ctx: &mut Ctx) -> Lp {
     } else {
         None
     };
+    if cols.iter().any(|c: &Col| c.name.parse::<f64>().is_ok()) {
+        ctx.label("numeric-looking-column-name");
+    }
+    if rows.iter().any(|r: &Row| r.name.parse::<f64>().is_ok()) {
+        ctx.label("numeric-looking-row-name");
+    }
     Lp { name: if t.coin() { "TESTPROB".into() } else { "p 1".into() }, maximize, obj_name, obj_rhs, cols, rows }
 }
 
